@@ -83,7 +83,7 @@ PLANS['C02'] = dict(
 )
 PLANS['C03'] = dict(
     engine='specgraph', level='exploration',
-    jobs=lambda tier: cfg_jobs(tier, (4, 250), (16, 5000), [_DEFAULT]) + cfg_jobs(tier, (1, 250), (4, 4000), [_STRICT, _LEGACY, _WARN, _TRACK]),
+    jobs=lambda tier: cfg_jobs(tier, (4, 250), (16, 2500), [_DEFAULT]) + cfg_jobs(tier, (1, 250), (4, 2000), [_STRICT, _LEGACY, _WARN, _TRACK]),
     minimums=lambda t: {'nodes_checked': 10000, 'consistent_nodes': 3000, 'inconsistent_nodes': 300,
                         'oracle_agreements': 10000, 'legacy_fallback_orders': 100, 'c3_differs_from_dfs': 50},
     rule='Random ordered DAGs (>= 20% inconsistent nodes in the non-strict configurations) of interfaces, plain and class '
